@@ -11,23 +11,38 @@ META = {
              "readings of the one order, strings order as their code-point lists. The implementation is tied to it differentially: triples of terms "
              "in every category and every heap representation (string literal / explicit list / partial string with tail / unaligned string suffix / "
              "'.'(H,T) / =.. and functor-built, small/big/computed integers, rationals, +-0.0, non-ASCII and astral atoms, shared variables) are "
-             "compared by compare/3 in all orders and by ==, \\==, @<, @=<, @>, @>= (meta-call and compiled clause), and the answers are compared in Coq with tcompare."),
-    "note": ("Trusted: Coq kernel + vm_compute; the model is a reference model (not an arm-by-arm mirror of ParallelHeapIter / compare_pstr_slices): "
-             "the byte-level string comparison and Ord for Atom (UTF-8 byte order) are tied by correspondence only. The variable order is not predicted: "
+             "compared by compare/3 in all orders and by ==, \\==, @<, @=<, @>, @>= (meta-call and compiled clause), and the answers are compared in Coq with tcompare. "
+             "Representation level (Repr.v): rterm models the heap cells ParallelHeapIter distinguishes (Lis, PStrLoc byte segment + tail, Str, atoms, numbers, variables) "
+             "with denote : rterm -> term, and rcompare mirrors compare_term_test over ParallelHeapIter::next arm by arm (order_category dispatch, the nine Lis/PStrLoc/Str arms, "
+             "C20's compare_pstr_slices mirror for string/string with its TailIndex/PStrOffset continuations, last_str_char_and_tail for string/cons, Ord for Atom on UTF-8 bytes). "
+             "Theorem rcompare_is_tcompare_partial: for all well-formed representations whose left operand holds no '.'/2 as a Str cell, rcompare a b = tcompare (denote a) (denote b) "
+             "-- so 'strings and partial strings are ordered as the lists they denote' is a theorem about a mirror of the code; rcompare_heads_first_is_tcompare: with the Str-'.'/2 "
+             "against Lis arm visiting heads first it holds for EVERY pair; rcompare_str_dot_against_lis_deviates: that arm as written (tail pair popped first) is not the standard order. "
+             "The mirror is run in Coq on the representation every construction path of the differential check produces and must give the implementation's answers."),
+    "note": ("Trusted: Coq kernel + vm_compute; tcompare is a reference model; rcompare (Repr.v) is a hand-written arm-by-arm mirror of ParallelHeapIter::next / "
+             "compare_term_test over tree-shaped representation terms: addresses, sharing and cycles (the tabu list) and cells without an order category are not modelled, "
+             "floats/integers/rationals/variables compare as in the reference; which representation a construction path produces is assumed (literal/suffix/atom_chars -> PStr "
+             "segments with NULs as cons cells, partial_string/3 -> PStr + tail, '.'(H,T) / =.. / [..] -> Lis, other compounds -> Str), not observed on the heap. "
+             "rcompare_is_tcompare_partial is PARTIAL: it excludes a left operand containing '.'/2 as a Str cell, because the code's Str-'.'/2 against Lis arm pushes the head pair "
+             "before the tail pair (tails compared first; proved to deviate: rcompare_str_dot_against_lis_deviates); no path was found that builds such a cell (reader, =.., functor/3, "
+             "copy_term/2, assertz/1, findall/3, clause/2 build Lis), so this is a latent defect without a failing query. The variable order is not predicted: "
              "the order of the (at most three) variables of a query is observed by compare/3 in the same query, must be a strict total order, and the "
              "variables are numbered accordingly in the model. No axioms (all theorems closed under the global context)."),
-    "technique": "Coq proof (tcompare_refl/antisym/trans/le_trans/total, eq_iff_identical, six_operators_consistent, string_order_is_codepoint_lex) over a reference model + differential correspondence evaluated in Coq",
+    "technique": ("Coq proof (tcompare_refl/antisym/trans/le_trans/total, eq_iff_identical, six_operators_consistent, string_order_is_codepoint_lex) over a reference model, "
+                  "refinement proof of an impl-mirror of ParallelHeapIter over heap representations to it (rcompare_is_tcompare_partial, rcompare_heads_first_is_tcompare, "
+                  "compare_pstr_slices_continuations, utf8_preserves_order_with_rests, peel_char) + differential correspondence evaluated in Coq"),
     "design_ref": "DESIGN.md section 8, C13",
     "coq_targets": ["C13/Props.vo"],
     "coq_dirs": ["C13"],
     "props": "C13/Props.v",
     "trusted_base": ["Coq 8.16.1 kernel, vm_compute (no native_compute)", "harness/vrun + tools/vlib (correspondence)",
-                     "Python generator and renderer of checks/C13.py (term -> Prolog text and term -> Coq term)"],
+                     "Python generator and renderer of checks/C13.py (term -> Prolog text, term -> Coq term, construction path -> representation term)",
+                     "C20's mirror cmp_slices of compare_pstr_slices, C18's UTF-8 decoder decode1 (imported models)"],
     "assumptions": ["the Prolog reader builds the term the text denotes (the reader is the subject of other properties)",
                     "variables are not moved between the comparisons of one query (no garbage collection inside a query)"],
 }
 
-IMPORTS = "From V Require Import Base.Term C13.Model."
+IMPORTS = "From V Require Import Base.Term C13.Model C13.Repr."
 VARS = ["A", "B", "C"]
 BIGK = 1 << 100
 
@@ -140,6 +155,59 @@ def mutate(rng, pool, t):
     return rand_term(rng, pool)
 
 
+# ------------------------------------------------------------------ representation terms (coq/C13/Repr.v rterm)
+# the heap representation each construction path produces: ("RVar", name) ("RInt", n) ("RRat", n, d) ("RFlt", bits) ("RAtom", text)
+# ("RStr", name, [args]) ("RLis", head, tail) ("RPStr", utf-8 bytes of one NUL-free segment, tail)
+class T(str):
+    """Prolog text of a rendered term, carrying the representation term of what the text builds (.rt)"""
+    pass
+
+
+def mk(text, rt):
+    t = T(text)
+    t.rt = rt
+    return t
+
+
+R_NIL = ("RAtom", "[]")
+
+
+def pstr_rt(s, tail):
+    """allocate_pstr / push_pstr: NUL-free segments, each NUL as a cons cell holding the character '\\0'"""
+    parts = s.split("\x00")
+    rt = tail
+    for i in reversed(range(len(parts))):
+        if i < len(parts) - 1:
+            rt = ("RLis", ("RAtom", "\x00"), rt)
+        if parts[i]:
+            rt = ("RPStr", parts[i].encode("utf-8"), rt)
+    return rt
+
+
+def lis_rt(heads, tail):
+    rt = tail
+    for h in reversed(heads):
+        rt = ("RLis", h, rt)
+    return rt
+
+
+def rt_coq(rt, num):
+    k = rt[0]
+    if k == "RVar": return "(RVar %d%%N)" % num[rt[1]]
+    if k == "RInt": return "(RInt (%d)%%Z)" % rt[1]
+    if k == "RRat": return "(RRat (%d)%%Z (%d)%%Z)" % (rt[1], rt[2])
+    if k == "RFlt": return "(RFlt (%d)%%Z)" % rt[1]
+    if k == "RAtom": return "(RAtom %s)" % terms.coq_name(rt[1])
+    if k == "RStr": return "(RStr %s [%s])" % (terms.coq_name(rt[1]), "; ".join(rt_coq(x, num) for x in rt[2]))
+    if k == "RLis": return "(RLis %s %s)" % (rt_coq(rt[1], num), rt_coq(rt[2], num))
+    if k == "RPStr": return "(RPStr [%s]%%N %s)" % (";".join("%d" % b for b in rt[1]), rt_coq(rt[2], num))
+    raise ValueError(rt)
+
+
+def rt_shape(rt):
+    return {"RLis": "Lis", "RPStr": "PStr", "RStr": "Str"}.get(rt[0], "other")
+
+
 # ------------------------------------------------------------------ rendering (term -> Prolog text in a chosen representation)
 class Render:
     def __init__(self, rng, prefix):
@@ -193,22 +261,22 @@ def render(t, st):
     rng = st.rng
     k = t[0]
     if k == "var":
-        return t[1]
+        return mk(t[1], ("RVar", t[1]))
     if k == "int":
         n = t[1]
         if rng.random() < 0.25:
             w = st.fresh()
             st.setup.append("%s is (%d) + %d - %d" % (w, n, BIGK, BIGK))
             st.kinds.append("int-computed")
-            return w
+            return mk(w, ("RInt", n))
         st.kinds.append("int-big" if abs(n) >= (1 << 55) else "int-small")
-        return "(%d)" % n if n < 0 else str(n)
+        return mk("(%d)" % n if n < 0 else str(n), ("RInt", n))
     if k == "rat":
         w = st.fresh()
         m = rng.choice([1, 1, 2, 6])
         st.setup.append("%s is (%d) rdiv %d" % (w, t[1] * m, t[2] * m))
         st.kinds.append("rat")
-        return w
+        return mk(w, ("RRat", t[1], t[2]))
     if k == "flt":
         s = terms.flt_text(t[1])
         s = "(%s)" % s if s.startswith("-") else s
@@ -216,36 +284,37 @@ def render(t, st):
             w = st.fresh()
             st.setup.append("%s is %s * 1.0" % (w, s))
             st.kinds.append("flt-computed")
-            return w
+            return mk(w, ("RFlt", t[1]))
         st.kinds.append("flt")
-        return s
+        return mk(s, ("RFlt", t[1]))
     if k == "atom":
         if t[1] not in ("", "[]") and "\x00" not in t[1] and rng.random() < 0.15:
             w = st.fresh()
             st.setup.append("atom_codes(%s, [%s])" % (w, ",".join(str(ord(c)) for c in t[1])))
             st.kinds.append("atom-codes")
-            return w
+            return mk(w, ("RAtom", t[1]))
         st.kinds.append("atom")
-        return atom_text(t[1])
+        return mk(atom_text(t[1]), ("RAtom", t[1]))
     # compound
     if t[1] == "." and len(t[2]) == 2:
         return render_list(t, st)
     r = rng.random()
     args = [render(x, st) for x in t[2]]
+    rt = ("RStr", t[1], [a.rt for a in args])          # a Str cell: functor cell + argument cells (name/arity is not './2 here)
     if r < 0.15:
         w = st.fresh()
         st.setup.append("%s =.. [%s]" % (w, ",".join([atom_text(t[1])] + args)))
         st.kinds.append("cmp-univ")
-        return w
+        return mk(w, rt)
     if r < 0.25:
         w = st.fresh()
         st.setup.append("functor(%s, %s, %d)" % (w, atom_text(t[1]), len(args)))
         for i, a in enumerate(args):
             st.setup.append("arg(%d, %s, %s)" % (i + 1, w, a))
         st.kinds.append("cmp-functor")
-        return w
+        return mk(w, rt)
     st.kinds.append("cmp")
-    return "%s(%s)" % (fname(t[1]), ",".join(args))
+    return mk("%s(%s)" % (fname(t[1]), ",".join(args)), rt)
 
 
 def render_list(t, st):
@@ -259,19 +328,19 @@ def render_list(t, st):
         s = "".join(x[1] for x in items)
         if r < 0.35:
             st.kinds.append("str")
-            return string_literal(s)
+            return mk(string_literal(s), pstr_rt(s, R_NIL))              # literal string -> partial string cell(s), tail []
         if r < 0.45:
             w1, w2 = st.fresh(), st.fresh()
             pre = "".join(rng.choice("xyzé") for _ in range(rng.choice([1, 2, 3, 5, 8, 9])))
             st.setup.append("%s = %s" % (w1, string_literal(pre + s)))
             st.setup.append("%s = [%s|%s]" % (w1, ",".join("_" for _ in pre), w2))
             st.kinds.append("str-suffix")
-            return w2
+            return mk(w2, pstr_rt(s, R_NIL))                               # PStrLoc into the middle of a segment: the suffix bytes
         if r < 0.5 and "\x00" not in s:
             w = st.fresh()
             st.setup.append("atom_chars(%s, %s)" % (terms.quote_atom(s), w))
             st.kinds.append("str-atom_chars")
-            return w
+            return mk(w, pstr_rt(s, R_NIL))
     if p >= 1 and r < 0.7:
         # partial string: a string prefix followed by the rest in any representation
         q = rng.randint(1, p)
@@ -282,31 +351,32 @@ def render_list(t, st):
         rt = render(rest, st)
         st.setup.append("%s = %s" % (w2, rt))
         st.kinds.append("pstr+tail")
-        return w1
+        return mk(w1, pstr_rt(s, rt.rt))                                   # segment(s) whose tail cell is bound to the rest
     if r < 0.8:
-        # '.'(H,T) in functional notation, tail rendered independently
+        # '.'(H,T) in functional notation, tail rendered independently (the reader builds a cons cell)
         h = render(items[0], st)
         tl = render(mklist(items[1:], tail), st)
         st.kinds.append("dot(H,T)")
-        return "'.'(%s,%s)" % (h, tl)
+        return mk("'.'(%s,%s)" % (h, tl), ("RLis", h.rt, tl.rt))
     if r < 0.87:
         h = render(items[0], st)
         tl = render(mklist(items[1:], tail), st)
         w = st.fresh()
         st.setup.append("%s =.. ['.', %s, %s]" % (w, h, tl))
         st.kinds.append("dot-univ")
-        return w
+        return mk(w, ("RLis", h.rt, tl.rt))                                # =.. fabricates a Lis for './2
     if r < 0.93 and len(items) > 1:
         q = rng.randint(1, len(items) - 1)
         hs = [render(x, st) for x in items[:q]]
         tl = render(mklist(items[q:], tail), st)
         st.kinds.append("lis|rest")
-        return "[%s|%s]" % (",".join(hs), tl)
+        return mk("[%s|%s]" % (",".join(hs), tl), lis_rt([h.rt for h in hs], tl.rt))
     hs = [render(x, st) for x in items]
     st.kinds.append("lis")
     if tail == NIL:
-        return "[%s]" % ",".join(hs)
-    return "[%s|%s]" % (",".join(hs), render(tail, st))
+        return mk("[%s]" % ",".join(hs), lis_rt([h.rt for h in hs], R_NIL))
+    tl = render(tail, st)
+    return mk("[%s|%s]" % (",".join(hs), tl), lis_rt([h.rt for h in hs], tl.rt))
 
 
 # ------------------------------------------------------------------ cases
@@ -316,13 +386,14 @@ OPS = ["==", "\\==", "@<", "@=<", "@>", "@>="]
 
 def make_goal(case, rng):
     """returns {"prefix": goals building T1..T3, "obs": [(result var, goal)], "kinds": per-term representation kinds}"""
-    goals, kinds, texts = [], [], []
+    goals, kinds, texts, rts = [], [], [], []
     for i, t in enumerate(case):
         st = Render(rng, "W%d_" % i)
         tx = render(t, st)
         goals += st.setup
         texts.append(tx)
         kinds.append(st.kinds)
+        rts.append(tx.rt)
     for i, tx in enumerate(texts):
         goals.append("T%d = %s" % (i + 1, tx))
     obs = []
@@ -332,7 +403,7 @@ def make_goal(case, rng):
         obs.append(("F%d" % k, "(T1 %s T2 -> F%d = y ; F%d = n)" % (op, k, k)))
     for (x, y) in (("A", "B"), ("A", "C"), ("B", "C")):
         obs.append(("V%s%s" % (x, y), "compare(V%s%s, %s, %s)" % (x, y, x, y)))
-    return {"prefix": goals, "obs": obs, "kinds": kinds}
+    return {"prefix": goals, "obs": obs, "kinds": kinds, "rts": rts}
 
 
 def goal_text(g, only=None):
@@ -471,8 +542,10 @@ def run(ctx):
 
     bools, bmeta = [], []
     dist = {"category_pairs": {}, "outcomes": {"<": 0, "=": 0, ">": 0}, "list_representation_pairs": {}, "paths": {"metacall": 0, "compiled": 0},
-            "queries_by_observed_variable_order": {}, "batches_rerun_after_process_death": len(retry) // B, "cases_killing_the_process": len(crashed)}
+            "queries_by_observed_variable_order": {}, "batches_rerun_after_process_death": len(retry) // B, "cases_killing_the_process": len(crashed),
+            "rcompare_top_cells": {}}
     nontrivial = set()
+    rnontrivial = set()
     for idx in range(n_cases):
         if idx not in answers:
             continue
@@ -496,9 +569,18 @@ def run(ctx):
                              "spec": "<, = or >", "property_fails": True})
             continue
         ct = [terms.to_coq(t, num) for t in case]
-        bools.append("check3 %s %s %s [%s] [%s]" % (ct[0], ct[1], ct[2], "; ".join(CMPC[o] for o in obs[:9]),
-                                                    "; ".join("true" if f == "y" else "false" for f in obs[9:15])))
-        bmeta.append((idx, obs, ct))
+        cr = [rt_coq(r, num) for r in g["rts"]]
+        # reference model AND representation-level mirror (rcompare on the representations the construction paths produce)
+        bools.append("(let t1 := %s in let t2 := %s in let t3 := %s in let o := [%s] in "
+                     "check3 t1 t2 t3 o [%s] && rcheck3 t1 t2 t3 %s %s %s o)"
+                     % (ct[0], ct[1], ct[2], "; ".join(CMPC[o] for o in obs[:9]),
+                        "; ".join("true" if f == "y" else "false" for f in obs[9:15]), cr[0], cr[1], cr[2]))
+        bmeta.append((idx, obs, ct, cr))
+        for (i, k) in OBS_PAIRS:
+            key = "%s/%s" % (rt_shape(g["rts"][i]), rt_shape(g["rts"][k]))
+            dist["rcompare_top_cells"][key] = dist["rcompare_top_cells"].get(key, 0) + 1
+            if key != "other/other" and cr[i] != cr[k]:
+                rnontrivial.add((cr[i], cr[k]))
         dist["paths"][path] += 1
         for (i, k), o in zip(OBS_PAIRS[:6], obs[:6]):
             ci, ck = category(case[i]), category(case[k])
@@ -518,11 +600,27 @@ def run(ctx):
     tie_breaks += [{"kind": "coq-eval", "what": "model evaluation shard failed", "detail": t} for _, t in errs]
     seen_keys = set()
     for i in bad[:40]:
-        idx, obs, ct = bmeta[i]
+        idx, obs, ct, cr = bmeta[i]
         case, g = cases[idx], goals[idx]
         spec = core.coq_eval_show(ctx.prop, IMPORTS, "(spec3 %s %s %s, ops %s %s)" % (ct[0], ct[1], ct[2], ct[0], ct[1]))
         sp = re.findall(r"\b(Lt|Eq|Gt|true|false)\b", spec)
         key = None
+        if len(sp) == 15 and sp[:9] == [CMPC[o] for o in obs[:9]] and sp[9:] == ["true" if f == "y" else "false" for f in obs[9:15]]:
+            # the reference agrees with the implementation: the representation-level part rejected the case
+            rs = core.coq_eval_show(ctx.prop, IMPORTS, "(rspec3 %s %s %s, [%s])" % (
+                cr[0], cr[1], cr[2], "; ".join(["rwfb %s && nodotb %s && term_eqb (denote %s) %s" % (r, r, r, t) for r, t in zip(cr, ct)])))
+            rp = re.findall(r"\b(Lt|Eq|Gt|true|false)\b", rs)
+            if len(rp) == 12 and rp[9:] == ["true"] * 3 and rp[:9] != sp[:9]:
+                k = [j for j in range(9) if rp[j] != sp[j]][0]
+                a, b = OBS_PAIRS[k]
+                key = "mirror:%s/%s:%s-for-%s" % (rt_shape(g["rts"][a]), rt_shape(g["rts"][b]), sp[k], rp[k])
+                what = ("compare(O, T%d, T%d) gives %s (as the reference order), the mirror of ParallelHeapIter gives %s on the representations "
+                        "(impossible by rcompare_is_tcompare_partial: the Coq development is inconsistent with itself)" % (a + 1, b + 1, sp[k], rp[k]))
+                tie_breaks.append({"kind": "model", "what": what, "detail": {"query": texts[idx], "rterms": cr, "coq": rs}})
+            else:
+                tie_breaks.append({"kind": "generator", "what": "checks/C13.py built a representation term that is ill-formed, contains a Str-'.'/2 or does not denote the case's term",
+                                   "detail": {"query": texts[idx], "rterms": cr, "terms": ct, "coq": rs}})
+            continue
         if len(sp) == 15:
             got = [CMPC[o] for o in obs[:9]]
             for (a, b), w, gt in zip(OBS_PAIRS, sp[:9], got):
@@ -543,16 +641,21 @@ def run(ctx):
         failures.append({"key": key, "what": what, "input": texts[idx], "representations": reprs(g["kinds"]), "path": "compiled" if compiled_of(idx) else "metacall",
                          "impl": "".join(obs[:9]) + " " + "".join(obs[9:15]), "spec": spec, "property_fails": True})
     samples = []
-    for (idx, obs, ct) in bmeta[:: max(1, len(bmeta) // 8)][:8]:
+    for (idx, obs, ct, cr) in bmeta[:: max(1, len(bmeta) // 8)][:8]:
         samples.append({"query": texts[idx][:400], "impl": "".join(obs[:9]) + " " + "".join(obs[9:15]) + " vars " + "".join(obs[15:18])})
     return {
-        "evaluations": len(bools) * 15,
+        "evaluations": len(bools) * 24,
         "distinct_nontrivial": len(nontrivial),
         "rule": ("each case = a triple of terms (pool of every category x every heap representation; T2, T3 are mutations of T1/T2 so that most pairs "
                  "fall in the same category) built in one query (meta-call under findall/3, or a consulted clause for every third batch); observed: compare/3 for the "
                  "9 ordered pairs (1,2)(2,1)(2,3)(3,2)(1,3)(3,1)(1,1)(2,2)(3,3) and the six operators on (T1,T2) = 15 observations per case, all compared in Coq with "
                  "tcompare (variables numbered by their observed order). non-trivial = distinct unordered pair of different terms that lie in the same order "
-                 "category (so the comparison is decided by value/structure, not by the category table)"),
+                 "category (so the comparison is decided by value/structure, not by the category table). In addition the 9 compare/3 answers of every case are "
+                 "compared with rcompare (Repr.v, the arm-by-arm mirror of ParallelHeapIter) run on the REPRESENTATIONS the construction paths produce "
+                 "(string literal / suffix / atom_chars -> PStr segment(s), NUL characters as cons cells; partial_string/3 -> PStr with the bound tail; "
+                 "'.'(H,T), =.., [..|..] -> Lis cells; other compounds -> Str), after checking in Coq that each representation is well-formed, free of Str-'.'/2 "
+                 "and denotes the case's term (= 9 more evaluations per case; %d distinct ordered pairs of different representations with a Lis/PStr/Str cell on top)"
+                 % len(rnontrivial)),
         "samples": samples,
         "distribution": dist,
         "failures": failures,
